@@ -278,6 +278,11 @@ def lp_items(pid, tier, seed):
             lambda i: optvecs(True, DIAG2, defaults +
                               [[("mincost", (1, 1))], [("minsqcost", (0, 1))],
                                [("gre", (1,))]]))
+        add("Q-structs x P x (0,0) x 9 default singles given at position 4 (a single criterion need not be at position 1)",
+            [I.make3(ns, np_, nl, sp, le, lp, pq, lq3)
+             for (ns, np_, nl, sp, le, lp) in I.Q_STRUCTS
+             for _, pq, lq3 in I.quota_profiles3(ns, np_, nl, le)],
+            lambda i: [(True, False, False, tuple(c), (4,)) for c in defaults])
         wc = [[("mincost", (1, 2))], [("mincost", (2, 1))],
               [("minsqcost", (1, 2))], [("minsqcost", (2, 1))]]
         add("HR (3,2)%s two-sided x {h1lq2uq3,lq1uq2%s} x (0,0) x weighted cost criteria (1,2),(2,1) "
